@@ -1,8 +1,13 @@
 #!/bin/bash
-# try_seed.sh <seed name> <check id> [check args...] : apply a seeded change to /repo, run the check, undo.
-name="$1"; shift
-cd /repo && git apply /verif/seeded/$name/patch.diff || exit 2
-trap 'git -C /repo checkout -- . ' EXIT
-cd /verif && ./check "$@" > /tmp/try_$name.out 2>&1; rc=$?
-grep -E '^(VIOLATION|KNOWN-FINDING|MACHINERY|C[0-9]+ )' /tmp/try_$name.out | head -${LINES_MAX:-6}
-echo "seed=$name check=$* exit=$rc"
+# try_seed.sh <seed> <check> [args] : apply a seeded change in a scratch worktree of /repo (never to /repo itself: other
+# runs may be reading it), run one check of the CURRENT /verif working tree against it, remove the worktree.
+s="$1"; c="$2"; shift 2
+W=$(mktemp -d /tmp/try_XXXX)
+git -C /repo worktree add --detach "$W/repo" HEAD >/dev/null 2>&1 || exit 2
+trap 'git -C /repo worktree remove --force "$W/repo"; rm -rf "$W"' EXIT
+git -C "$W/repo" apply /verif/seeded/$s/patch.diff || { echo "patch does not apply"; exit 2; }
+cd /verif && VERIF_REPO="$W/repo" VERIF_OUT="$W/out" ./check $c "$@" 2>&1 | grep -v '^KNOWN-FINDING' | tail -4
+rc=${PIPESTATUS[0]}
+first=$(ls "$W/out/replays/$c/"*.json 2>/dev/null | head -1)
+[ -n "$first" ] && python3 -c "import json;print('first clause:', str(json.load(open('$first'))['detail'].get('failing_clause'))[:160])"
+echo "seed=$s check=$c exit=$rc"
